@@ -7,21 +7,22 @@ CFG = {
     "harness": "c02",
     "timeout": {"quick": 600, "thorough": 3000},
     "trivial_outputs": ["err"],
-    "rule": "one case = one history on a fresh chain: a random block tree (5-16 blocks, chainx builder: time-sensitive difficulties, "
-            "shorter-but-heavier branches, deliberate exact TD ties between siblings, the same transaction mined on sibling branches), "
-            "a random parent-closed arrival order split into InsertChain batches, re-deliveries, whole-ancestry batches, non-contiguous "
-            "batches, SetHead to random heights followed by re-imports, Stop+reopen; archive / pruning (small TrieNodeLimit, "
-            "TrieTimeLimit) / header-first (InsertHeaderChain on a second chain instance). After EVERY call the database is read back "
-            "through the public accessors (GetCanonicalHash 0..max+2, GetTd, GetTxLookupEntry/GetTransaction/GetReceipt of every "
-            "transaction of the tree, GetBlock/GetHeader/GetBody/GetReceiptsByHash, head pointers, state availability) and (a) judged "
-            "directly against the statement of C02, (b) compared field by field with the Lean model replaying the same operations "
-            "(every coin resolution followed, filtered by the observed state). Non-trivial = every history (each performs imports).",
+    "rule": "one case = one import history on a fresh chain: a random block tree (5-16 blocks; 35% 'race' trees of up to ~24 blocks "
+            "with a long light branch and a shorter heavier one; timestamp offsets up to 2000 s so difficulties differ by up to 5% "
+            "per block; siblings with EQUAL offsets = deliberate exact TD ties, also in chains), a random parent-closed arrival order "
+            "(possibly of a parent-closed subset) split into InsertChain batches, re-deliveries, whole-ancestry batches, non-contiguous "
+            "batches, Stop+reopen of a pruning node (reaches ErrPrunedAncestor: written without state while lighter, winners re-imported "
+            "when the branch overtakes); archive / pruning / header-first (InsertHeaderChain). After EVERY call: TD recurrence for every "
+            "stored block, head TD >= TD of every block the chain has fully validated so far (exact ties either way), head validated, "
+            "head TD monotone — judged directly on the real chain — and the dump (head, td table, stored / state sets) is compared "
+            "with the Lean model replaying the same operations under every coin resolution. Non-trivial = every history.",
     "tie": {"BlockChain.WriteBlockWithState / insert / reorg": "corr (Go vs Model.Chain.writeBlockWithState)",
             "insertChain2 classification incl. ErrKnownBlock, ErrPrunedAncestor side-chain branch": "corr (Model.Chain.importOne)",
             "BlockChain.SetHead + HeaderChain.SetHead": "corr (Model.Chain.setHead / hSetHead)",
             "HeaderChain.WriteHeader / InsertHeaderChain": "corr (Model.Chain.writeHeader / hImportChain)",
             "BlockChain.Stop + NewBlockChain (state availability)": "corr (Model.Chain.reopen)"},
-    "assumptions": ["Go runtime, math/big and the cryptographic primitives are modelled, not verified (DESIGN.md 2.5)",
+    "assumptions": ["C02 quantifies over import histories: rewinds (SetHead) are exercised under C03 only",
+                    "Go runtime, math/big and the cryptographic primitives are modelled, not verified (DESIGN.md 2.5)",
                     "only valid blocks are imported (block validity is property C01); a transaction occurs at most once along one "
                     "chain (guaranteed by nonces; checked on every generated tree)",
                     "histories stay below 128 blocks (triesInMemory): trie garbage collection during import is not modelled; "
@@ -32,12 +33,14 @@ CFG = {
                      "records; caches, events and the write ORDER inside one call are not modelled (crash consistency is C04)"],
 }
 META = {
-    "technique": "Lean 4 proof (invariant of the chain-database model preserved by import, reorganisation and rewind, by induction over "
-                 "arbitrary operation histories) tied to core/ by differential correspondence on random histories",
-    "text": "Theorems inv_init, inv_insertBlock, inv_importChain, inv_setHead, inv_reopen, inv_reachable (and the header-chain analogues) "
-            "show that in the Lean model of BlockChain/HeaderChain the number index is exactly the ancestry of the head, nothing is indexed "
-            "above it, canonical blocks are retrievable and a lookup resolves iff the transaction is canonical, after every admissible "
-            "history; every run re-checks them and replays hundreds of random histories on the real chain code and on the compiled model, "
-            "requiring identical database states, and judges the real state directly against the statement.",
-    "note": GEN,
+    "technique": "Lean 4 proof (fork-choice invariants of the chain-database model for all trees, orders, batchings and coin "
+                 "resolutions, by induction over import histories) tied to core/ by differential correspondence on random trees",
+    "text": "Theorems td_recurrence, head_is_max, head_td_monotone, imports_never_fail (and header_td_recurrence, header_head_is_max, "
+            "header_head_td_monotone) show that in the Lean model of WriteBlockWithState / insertChain2 (incl. the pruned-ancestor "
+            "side-chain branch and restarts) / HeaderChain.WriteHeader every td record is the parent's plus the block's difficulty, the "
+            "head is a fully validated block at least as heavy as every fully validated block whatever the coin did, and its total "
+            "difficulty never decreases; every run re-checks them and imports hundreds of random trees (shorter-heavier branches, exact "
+            "ties) into the real chain and the compiled model, requiring identical heads and td tables, and judges the real chain directly.",
+    "note": GEN + " The tie-break 'equal TD: lower number wins' is proved in the model but cannot be exercised on the real code "
+            "(equal total difficulty at different heights does not occur with real difficulty values).",
 }
